@@ -9,7 +9,7 @@ RULE = ("pairs of dictionary trees (dictionaries nested 1-4 deep over a 5-key al
         "policy, and 1-3 per-field options (4 kinds) whose dotted paths are present / absent in either tree and name dictionaries, "
         "lists or primitives, including paths that share their last component with settings at another depth; PathSep applied "
         "before or after the Field option; index and '*' segments over lists of objects, lists of lists and names below lists. Oracle: Spec.C01.merge with the policy of the longest configured path that is a "
-        "prefix of the setting's path (Spec.C01.polOf). Plus: index and '*' segments decided by the oracle (lists of objects, lists of lists, names below lists), '**' wildcards next to exact paths and Option values reused for a second merge (model comparison). Non-trivial: some configured path exists in both trees. Distinct by "
+        "prefix of the setting's path (Spec.C01.polOf). Plus: index and '*' segments decided by the oracle (lists of objects, lists of lists, names below lists), '**' wildcards next to exact paths and Option values reused for a second merge (model comparison); a policy on a path together with another on a longer path extending it by an index, '*' or name (either order). Non-trivial: some configured path exists in both trees. Distinct by "
         "(global policy, field policies, path depth, where the path's last component also occurs, conflict kinds).")
 TRUSTED_BASE = ["Lean 4 kernel", "extractor: configHandling enumeration order",
                 "Model/Merge.lean (fieldOptsOverride, fhNode, includeWildcard) transcribes merge.go/opts.go (differential check)",
@@ -72,6 +72,7 @@ def gen(rng, tier):
     yield from gen_index(rng.fork("index"), n // 3)
     yield from gen_index_directed(rng.fork("indexd"), n // 3)
     yield from gen_through_lists(rng.fork("through"), n // 4)
+    yield from gen_nested_policies(rng.fork("nestedpol"), n // 4)
     for _ in range(n):
         d = 2 + rng.below(3)
         a = dict_tree(rng, d)
@@ -224,6 +225,36 @@ def gen_through_lists(rng, n):
         opts.append(opt(rng.pick(FIELD), [".".join(path)]))
         yield {"k": "merge", "a": a, "optsA": [], "steps": [{"b": b, "opts": opts}], "_tag": "field-through-lists/" + (g or "default"),
                "_sig": "through|%s|%s|%s" % (g, shape, len(path)), "_nt": True}
+
+
+def gen_nested_policies(rng, n):
+    """a policy on a path and another one on a longer path that extends it by an index, a '*' or a name (in either order,
+    with and without a global policy): the longer path governs its own subtree, the shorter one everything else below it"""
+    def objs(tag, w):
+        return A([M([(tag + str(i), S(rng.pick(["old", "new", "x"]))), ("s", U(i))] + ([("q", A([U(i), U(i + 1)]))] if rng.chance(0.5) else []))
+                  for i in range(w)])
+    for _ in range(n):
+        k1, k2 = rng.pick(KEYS), rng.pick(KEYS)
+        w = 2 + rng.below(2)
+        shape = rng.below(3)
+        if shape == 0:      # k1 is a list of objects
+            a = M([(k1, objs("k", w))]); b = M([(k1, objs("n", w))]); base = [k1]
+        elif shape == 1:    # k1.k2 is
+            a = M([(k1, M([(k2, objs("k", w))]))]); b = M([(k1, M([(k2, objs("n", w))]))]); base = [k1, k2]
+        else:               # k1 is an object of objects holding lists
+            a = M([(k1, M([(k2, M([("q", A([U(1), U(2)])), ("k", S("old"))]))]))]); b = M([(k1, M([(k2, M([("q", A([U(3)])), ("n", S("new"))]))]))]); base = [k1]
+        ext = [rng.pick([str(rng.below(w)), str(rng.below(w)), "*"])] if shape < 2 else [k2]
+        if rng.chance(0.4):
+            ext.append("q")
+        f1, f2 = rng.pick(FIELD), rng.pick(FIELD)
+        o1, o2 = opt(f1, [".".join(base)]), opt(f2, [".".join(base + ext)])
+        opts = [opt("PathSep", ".")]
+        g = rng.pick(POLICIES)
+        if g:
+            opts.append(opt(g))
+        opts += [o1, o2] if rng.chance(0.5) else [o2, o1]
+        yield {"k": "merge", "a": a, "optsA": [], "steps": [{"b": b, "opts": opts}], "_tag": "field-nested-policies/" + (g or "default"),
+               "_sig": "nestedpol|%s|%s|%s|%s|%s" % (g, shape, f1, f2, len(ext)), "_nt": True}
 
 
 def nontrivial(case, impl):
